@@ -1,5 +1,6 @@
 import Driver.Util
 import DiskfsModel.Model.PartIO
+import DiskfsModel.Model.PartDisk
 namespace Driver.PartIO
 open Diskfs Driver
 
@@ -19,10 +20,70 @@ def read (args : List String) : String :=
   let rs := Diskfs.PartIO.readReqs (argNatD args "dev") (argNatD args "start") (argNatD args "size") (argNatD args "pss") 0 []
   "rs=" ++ (if rs.isEmpty then "-" else ",".intercalate (rs.map fun r => s!"{r.1}:{r.2}"))
 
+/-! ### disk level (Model/PartDisk.lean) -/
+
+open Diskfs.PartDisk in
+/-- `kind,index,start,end,size,lss,pss;…` or `-` -/
+def parseParts (s : String) : List PartDisk.P :=
+  if s == "-" || s == "" then [] else
+  (s.splitOn ";").filterMap fun item =>
+    match item.splitOn "," with
+    | [k, i, st, en, sz, l, p] =>
+      some { kind := if k == "gpt" then .gpt else .mbr, index := i.toInt!, start := st.toNat!, end_ := en.toNat!,
+             size := sz.toNat!, lss := l.toNat!, pss := p.toNat! }
+    | _ => none
+
+def tableOf (args : List String) : Option (List PartDisk.P) :=
+  if (arg args "tbl").getD "1" == "0" then none else some (parseParts ((arg args "parts").getD "-"))
+
+def reqsStr (rs : List (Nat × Nat)) : String :=
+  if rs.isEmpty then "-" else ",".intercalate (rs.map fun r => s!"{r.1}:{r.2}")
+
+/-- the byte pattern the engine fills partitions with: a function of the absolute offset -/
+def pat (seed i : Nat) : UInt8 := UInt8.ofNat ((i * 167 + i / 251 * 13 + seed) % 256)
+
+/-- `fills=off:len,…`: the device holds `pat seed` there and zero elsewhere -/
+def patDev (args : List String) : Dev :=
+  let seed := argNatD args "seed"
+  let fills := (((arg args "fills").getD "-").splitOn ",").filterMap fun it =>
+    match it.splitOn ":" with
+    | [o, l] => some (o.toNat!, l.toNat!)
+    | _ => none
+  fun i => if fills.any (fun f => decide (f.1 ≤ i ∧ i < f.1 + f.2)) then pat seed i else 0
+
+/-- partio.dwrite tbl=0|1 parts= idx= chunks=  → Disk.WritePartitionContents -/
+def dwrite (args : List String) : String :=
+  let chunks := (natList ((arg args "chunks").getD "-")).map fun n => List.replicate n (0 : UInt8)
+  match PartDisk.diskWrite (tableOf args) ((argInt args "idx").getD 0) chunks with
+  | .noTable => "res=notable"
+  | .badIndex => "res=badindex"
+  | .reconcileErr => "res=reconcile"
+  | .done r => s!"res=done\tws={wsLens r.ws}\ttotal={r.total}\tok={if r.ok then 1 else 0}"
+
+/-- partio.dread tbl=0|1 parts= idx= dev= seed= fills=  → Disk.ReadPartitionContents:
+    the ReadAt requests, the count and a fingerprint (length, sum of bytes) of what reached the writer -/
+def dread (args : List String) : String :=
+  match PartDisk.diskRead (patDev args) (argNatD args "dev") (tableOf args) ((argInt args "idx").getD 0) with
+  | .noTable => "res=notable"
+  | .badIndex => "res=badindex"
+  | .done b n rs => s!"res=done\trs={reqsStr rs}\tn={n}\tlen={b.length}\tsum={b.foldl (fun a x => a + x.toNat) 0}"
+
+def coutStr : PartDisk.COut → String
+  | .ok => "ok" | .errWrite => "errwrite" | .errRead => "errread" | .errMismatch => "errmismatch" | .errVerify => "errverify"
+
+/-- partio.copy parts= from= to= dev= seed= fills=  → sync.CopyPartitionRaw: the WriteAt list and the outcome -/
+def copy (args : List String) : String :=
+  let r := PartDisk.copyRaw (patDev args) (argNatD args "dev") (parseParts ((arg args "parts").getD "-"))
+    ((argInt args "from").getD 0) ((argInt args "to").getD 0)
+  s!"ws={wsLens r.ws}\tout={coutStr r.out}"
+
 end Driver.PartIO
 
 def main : IO Unit := Driver.runLoop fun op args =>
   match op with
   | "partio.write" => Driver.PartIO.write args
   | "partio.read" => Driver.PartIO.read args
+  | "partio.dwrite" => Driver.PartIO.dwrite args
+  | "partio.dread" => Driver.PartIO.dread args
+  | "partio.copy" => Driver.PartIO.copy args
   | _ => "unknown-op"
